@@ -13,6 +13,8 @@
 (*                                   order of insertion), obs = the assembled matrix;  *)
 (*                                   the specification's placement map decides where   *)
 (*                                   each component must land                          *)
+(*   parts  bd, q, k, comps, obs     the code's matrix of stiffener k with padup and flange (obs) *)
+(*                                   against its padup-only and flange-only twins (comps)      *)
 (*   psd    lmin, norm, sym          observation: smallest eigenvalue of a stiffener's *)
 (*                                   stand-alone k0 / kM, its norm, exact symmetry     *)
 (* Verdict "ok", "kf:<deviation>" (explained by exactly that listed deviation) or      *)
@@ -73,7 +75,8 @@ Raised(e) == IF "raised" \in DOMAIN e THEN e.raised ELSE ""
    tiles' sum, which must coincide with the uncut skin's (partition independence, re-checked here) *)
 Expected(d, r, dev) == AQuantity(d, r, dev)
 SpecConsistent(d, r) == (d.kind = "bay" /\ r.q \in {"k0", "kG0", "kM"}) => Vals(SkinSum(d, r, {})) = Vals(SkinUncut(d, r, {}))
-ValueDeviations == { k \in OpenKF : k \in {"KF_C04_OffsetCouplingSign", "KF_C13_Blade1DMassCouplingDoubled", "KF_C13_TStiffBaseStripInBayCoordinates"} }
+ValueDeviations == { k \in OpenKF : k \in {"KF_C04_OffsetCouplingSign", "KF_C13_Blade1DMassCouplingDoubled", "KF_C13_TStiffBaseStripInBayCoordinates",
+                                            "KF_C13_Blade1DTwistTermsNotLaminate"} }
 RECURSIVE FirstValueKF(_,_,_,_)
 FirstValueKF(kfs, obs, d, r) ==
     IF kfs = {} THEN "none"
@@ -133,16 +136,29 @@ TPlace(e) ==
                   IN IF asym # {} THEN Verdict(e.id, "fail", <<"asymmetric stiffener contribution", asym>>)
                      ELSE Verdict(e.id, IF bad = {} THEN "ok" ELSE "fail", Short(bad))
 
+(* optional parts: the code's matrix of a stiffener with padup and flange = padup-only twin + flange-only twin *)
+TParts(e) ==
+    LET n == e.size
+        whole == [size |-> n, segs |-> << Seg(0, 0, n) >>]
+    IN /\ adef' = DecBd(e.d) /\ areq' = [q |-> "parts"]
+       /\ IF ~(Len(e.obs) = n /\ \A k \in 1..Len(e.comps) : Len(e.comps[k]) = n)
+          THEN aout' = <<>> /\ Verdict(e.id, "fail", <<"size", n>>)
+          ELSE /\ aout' = PlacedObserved(Fn([k \in 1..Len(e.comps) |-> whole]), n, e.comps)
+               /\ LET bad == BadEntries(e.obs, aout', TolPlace)
+                  IN Verdict(e.id, IF bad = {} THEN "ok" ELSE "fail", Short(bad))
+
 (* observation: a stiffener's stiffness / mass contribution is symmetric positive semi-definite *)
 TPsd(e) ==
     /\ UNCHANGED avars
     /\ LET ok == e.sym /\ RLe(RNeg(RMul(RTwoPow(-TolPsd), Obs(e.norm))), Obs(e.lmin))
            sig == e.sym /\ e.kind = "b1d" /\ e.q = "kM" /\ "KF_C13_Blade1DMassCouplingDoubled" \in OpenKF
-       IN Verdict(e.id, IF ok THEN "ok" ELSE IF sig THEN "kf:KF_C13_Blade1DMassCouplingDoubled" ELSE "fail", <<e.sym, e.lmin, e.norm>>)
+           sigK == e.sym /\ e.kind = "b1d" /\ e.q = "k0" /\ "KF_C13_Blade1DTwistTermsNotLaminate" \in OpenKF
+       IN Verdict(e.id, IF ok THEN "ok" ELSE IF sig THEN "kf:KF_C13_Blade1DMassCouplingDoubled"
+                        ELSE IF sigK THEN "kf:KF_C13_Blade1DTwistTermsNotLaminate" ELSE "fail", <<e.sym, e.lmin, e.norm>>)
 
 TStep == /\ l <= Len(Trace)
          /\ l' = l + 1
-         /\ LET e == Trace[l] IN CASE e.ev = "place" -> TPlace(e) [] e.ev = "psd" -> TPsd(e) [] OTHER -> TEval(e)
+         /\ LET e == Trace[l] IN CASE e.ev = "place" -> TPlace(e) [] e.ev = "parts" -> TParts(e) [] e.ev = "psd" -> TPsd(e) [] OTHER -> TEval(e)
 TSpec == TInit /\ [][TStep]_tvars
 Done == TLCGet("stats").diameter - 1 = Len(Trace)
 =============================================================================
